@@ -157,7 +157,7 @@ func (w *c15World) skippable1(rt *c15Root, env *c15Env, stmt ast.Node, reverse i
 	}
 	if inLoop != nil {
 		for _, ord := range []c15Ord{c15OrdBefore, c15OrdEqual} {
-			o := &c15Oracle{w: w, loop: inLoop.loop, lenv: inLoop.env, ord: ord, rng: +1, reverse: reverse}
+			o := &c15Oracle{w: w, loop: inLoop.loop, lenv: inLoop.env, ord: ord, rng: c15In, reverse: reverse}
 			if w.filteredSource(*inLoop) != nil {
 				o.ord = c15OrdNone
 			}
@@ -168,7 +168,7 @@ func (w *c15World) skippable1(rt *c15Root, env *c15Env, stmt ast.Node, reverse i
 		}
 		return ""
 	}
-	o := &c15Oracle{w: w, rng: +1, reverse: reverse}
+	o := &c15Oracle{w: w, rng: c15In, reverse: reverse}
 	wk := w.walk(f.g.Blocks[0], 0, c15WalkOpt{env: env, oracle: o, barrier: barrier})
 	return check(wk, "an in-range update")
 }
@@ -177,7 +177,7 @@ func (w *c15World) skippable1(rt *c15Root, env *c15Env, stmt ast.Node, reverse i
 func (w *c15World) reachableWith(rt *c15Root, env *c15Env, stmt ast.Node, reverse int) bool {
 	for e := env; e != nil; e = e.parent {
 		f := e.fn
-		o := &c15Oracle{w: w, rng: +1, reverse: reverse}
+		o := &c15Oracle{w: w, rng: c15In, reverse: reverse}
 		wk := w.walk(f.g.Blocks[0], 0, c15WalkOpt{env: e, oracle: o})
 		if !wk.visited[stmt] {
 			return false
